@@ -941,20 +941,30 @@ fn minimise(
 ) -> (Json, Violation) {
     let start = Instant::now();
     let mut progress = true;
+    // Candidates are tried in the order the world proposes them, `par` at a time in fresh child
+    // processes; the first one (in that order) that still shows the same violation is kept, so the
+    // result does not depend on which child finishes first.
+    let par = std::thread::available_parallelism().map(|n| n.get()).unwrap_or(4).clamp(1, 12);
     while progress && start.elapsed() < Duration::from_secs(budget_s) {
         progress = false;
-        for cand in world.shrink(&case) {
+        let cands = world.shrink(&case);
+        for chunk in cands.chunks(par) {
             if start.elapsed() >= Duration::from_secs(budget_s) {
                 break;
             }
-            let r = exec_case_in_child(id, &cand, hang_s);
-            if let Some(v) = r.violation() {
-                if v.class == viol.class && v.key == viol.key {
-                    case = cand;
-                    viol = v;
-                    progress = true;
-                    break;
-                }
+            let results: Vec<Option<Violation>> = std::thread::scope(|sc| {
+                let hs: Vec<_> = chunk.iter().map(|cand| sc.spawn(move || exec_case_in_child(id, cand, hang_s).violation())).collect();
+                hs.into_iter().map(|h| h.join().unwrap_or(None)).collect()
+            });
+            let hit = results.into_iter().enumerate().find_map(|(i, v)| match v {
+                Some(v) if v.class == viol.class && v.key == viol.key => Some((i, v)),
+                _ => None,
+            });
+            if let Some((i, v)) = hit {
+                case = chunk[i].clone();
+                viol = v;
+                progress = true;
+                break;
             }
         }
     }
